@@ -32,6 +32,7 @@ def run(ctx, col, tier):
                         "adjacency-matrix values"]
     col.assumptions += ["well-formed tree: ids equal positions"]
 
+    col.guard(anchored, ctx, col)
     col.guard(spaces, ctx, col)
     col.guard(accessors, ctx, col)
     col.guard(purity, ctx, col)
@@ -302,3 +303,50 @@ def segments(ctx, col):
     col.judge(len(gens) == 1, ok, "R-SEG", d.qualname, d.loc(), "branch segments: consecutive local positions (i-1, i)",
               norm_src(ret)[:100], f"`{norm_src(ret)[:100]}` does not pair consecutive positions of the branch",
               stmt="branch-segments")
+
+
+def anchored(ctx, col):
+    """Statements that carry the clauses, matched three-way under one renaming per function."""
+    repo = ctx.repo
+    n = repo.get_def("swcgeom.core.node.Node.__getitem__")
+    col.text_group("R-ACCESS", n.qualname, n, [("a node reads the owner's column at its own index, on every access",
+                                                 ["return self.attach.get_ndata(key)[self.idx]"], "node-get")])
+    n = repo.get_def("swcgeom.core.node.Node.__setitem__")
+    col.text_group("R-ACCESS", n.qualname, n, [("assignment through a node handle stores into the owner's column at the node's index",
+                                                 ["self.attach.get_ndata(k)[self.idx] = v"], "node-set")])
+    for q in ("swcgeom.core.path.Path.get_ndata",):
+        d = repo.get_def(q)
+        col.text_group("R-ACCESS", d.qualname, d, [("a view reads the owner's column at the view's indices, in the view's order",
+                                                     ["return self.attach.get_ndata(key)[self.idx]"], "view-get")])
+    c = repo.get_def("swcgeom.core.compartment.Compartment.__init__")
+    col.text_group("R-SEG", c.qualname, c, [("a compartment's two positions are (parent, child) in that order",
+                                             ["super().__init__(attach, np.array([pid, idx]))"], "pair")], fixed=("attach", "pid", "idx"))
+    t = repo.get_def("swcgeom.core.tree.Tree.get_compartments")
+    col.text_group("R-SEG", t.qualname, t, [("tree segments: (parent id, id) of every node but the root",
+                                             ["return Compartments((self.Compartment(self, n.pid, n.id) for n in self[1:]))"], "tree-seg")], fixed=("Compartments",))
+    b = repo.get_def("swcgeom.core.branch.Branch.get_compartments")
+    col.text_group("R-SEG", b.qualname, b, [("branch segments: consecutive positions (i-1, i) of the branch itself",
+                                             ["return Compartments((self.Compartment(self, i - 1, i) for i in range(1, len(self))))",
+                                              "return Compartments((self.Compartment(self, i, i + 1) for i in range(len(self) - 1)))"], "branch-seg")], fixed=("Compartments",))
+    # a branch's segments are pairs of ITS consecutive nodes: pairing a node with its parent in the owner is
+    # another relation (it differs for any branch that is not a parent->child run of the owner)
+    for x in own_nodes(b):
+        if isinstance(x, ast.Call) and isinstance(x.func, ast.Attribute) and x.func.attr == "Compartment" and len(x.args) == 3:
+            if norm_src(x.args[0]).endswith(".attach") and ".pid" in norm_src(x.args[1]):
+                col.bad("R-SEG", b.qualname, b.loc(x), "branch segments: consecutive positions (i-1, i) of the branch itself",
+                        f"`{norm_src(x)}` pairs each node with its parent in the OWNER, not with its predecessor in the branch", stmt="branch-seg", definite=True)
+    for q in ("swcgeom.core.tree.Tree.__getitem__", "swcgeom.core.path.Path.__getitem__"):
+        g = repo.get_def(q)
+        col.text_group("R-IDXNORM", g.qualname, g, [
+            ("slices resolve through slice.indices(len(self)): start, stop AND step", ["return [self.node(i) for i in range(*key.indices(len(self)))]"], "slice"),
+            ("out-of-range keys raise", ["if key < -length or key >= length: raise IndexError(_any)"], "range"),
+            ("negative keys count from the end", ["if key < 0: key += length", "key = key + length if key < 0 else key"], "wrap"),
+        ], fixed=("key",))
+        # range(start, stop) built from key.indices(...) without the step
+        for x in own_nodes(g):
+            if isinstance(x, ast.Call) and isinstance(x.func, ast.Name) and x.func.id == "range" and len(x.args) == 2 and not any(isinstance(a, ast.Starred) for a in x.args):
+                unp = [a for a in own_nodes(g) if isinstance(a, ast.Assign) and isinstance(a.value, ast.Call) and isinstance(a.value.func, ast.Attribute)
+                       and a.value.func.attr == "indices" and isinstance(a.targets[0], ast.Tuple) and len(a.targets[0].elts) == 3]
+                if unp and {norm_src(x.args[0]), norm_src(x.args[1])} <= {norm_src(e) for e in unp[0].targets[0].elts}:
+                    col.bad("R-IDXNORM", g.qualname, g.loc(x), "slices resolve through slice.indices(len(self)): start, stop AND step",
+                            f"`{norm_src(x)}` drops the step of `{norm_src(unp[0])}`: `t[::2]` returns every node and `t[::-1]` nothing", stmt="slice", definite=True)
